@@ -1237,12 +1237,31 @@ func runC17(c *Ctx, _ []string) {
 				bad = fmt.Sprintf(f, a...)
 			}
 		}
+		panicked := false
+		guard := func(what string, f func()) {
+			defer func() {
+				if e := recover(); e != nil {
+					panicked = true
+					fail("%s panicked: %v", what, e)
+				}
+			}()
+			f()
+		}
+		report := func(dataLen int) {
+			c.Hist("empty_stream", fmt.Sprint(dataLen == 0))
+			if bad != "" {
+				c.Violation(map[string]any{"what": bad, "cfg": cfg.String(), "program": strings.Join(prog, " ; ")})
+			}
+			if len(c.Stats["samples"].([]any)) < 3 {
+				c.Stats["samples"] = append(c.Stats["samples"].([]any), strings.Join(prog, " ; "))
+			}
+		}
 		var data []byte
 		closed := false
 		lastW := uint64(0)
 		nops := r.Range(1, 14)
 		dr := NewRng(r.U64())
-		for k := 0; k < nops; k++ {
+		for k := 0; k < nops && !panicked; k++ {
 			switch op := r.Intn(10); {
 			case op < 6 && !(closed && r.Intn(3) != 0):
 				var ln int
@@ -1258,8 +1277,13 @@ func runC17(c *Ctx, _ []string) {
 				}
 				buf := genData(dr, "text", ln)
 				before, sinkBefore := w.GetWritten(), sink.buf.Len()
-				k2, err := w.Write(buf)
+				var k2 int
+				var err error
+				guard(fmt.Sprintf("Write(%d) on a writer (closed=%v)", ln, closed), func() { k2, err = w.Write(buf) })
 				prog = append(prog, fmt.Sprintf("Write(%d)", ln))
+				if panicked {
+					break
+				}
 				if closed {
 					if err == nil {
 						fail("Write(%d) after Close returned nil", ln)
@@ -1274,8 +1298,12 @@ func runC17(c *Ctx, _ []string) {
 					data = append(data, buf...)
 				}
 			case op < 8:
-				err := w.Close()
+				var err error
+				guard("Writer.Close", func() { err = w.Close() })
 				prog = append(prog, "Close")
+				if panicked {
+					break
+				}
 				if err != nil {
 					fail("Close returned %v", err)
 				}
@@ -1289,17 +1317,26 @@ func runC17(c *Ctx, _ []string) {
 			default:
 				prog = append(prog, "GetWritten")
 			}
+			if panicked {
+				break
+			}
 			gw := w.GetWritten()
 			if gw < lastW {
 				fail("GetWritten went from %d to %d", lastW, gw)
 			}
 			lastW = gw
 		}
-		if !closed {
-			if err := w.Close(); err != nil {
+		if !closed && !panicked {
+			var err error
+			guard("Writer.Close", func() { err = w.Close() })
+			if err != nil {
 				fail("Close returned %v", err)
 			}
 			prog = append(prog, "Close")
+		}
+		if panicked {
+			report(len(data))
+			continue
 		}
 		if uint64(sink.buf.Len()) != w.GetWritten() {
 			fail("after Close GetWritten() = %d but the sink received %d bytes", w.GetWritten(), sink.buf.Len())
@@ -1315,14 +1352,17 @@ func runC17(c *Ctx, _ []string) {
 			var got []byte
 			rclosed, eof := false, false
 			lastR := uint64(0)
-			for k := 0; k < r.Range(2, 14); k++ {
+			for k := 0; k < r.Range(2, 14) && !panicked; k++ {
 				switch op := r.Intn(10); {
 				case op < 7:
 					ln := []int{0, 1, B, B * 2, r.Intn(5 * B)}[r.Intn(5)]
 					buf := make([]byte, ln)
-					k2, err := rd.Read(buf)
+					var k2 int
+					var err error
+					guard(fmt.Sprintf("Read(%d)", ln), func() { k2, err = rd.Read(buf) })
 					prog = append(prog, fmt.Sprintf("Read(%d)", ln))
 					switch {
+					case panicked:
 					case rclosed:
 						if err == nil || err == stdio.EOF || k2 != 0 {
 							fail("Read after Close returned (%d, %v)", k2, err)
@@ -1341,7 +1381,9 @@ func runC17(c *Ctx, _ []string) {
 						got = append(got, buf[:k2]...)
 					}
 				case op < 9:
-					if err := rd.Close(); err != nil {
+					var err error
+					guard("Reader.Close", func() { err = rd.Close() })
+					if err != nil {
 						fail("Reader.Close returned %v", err)
 					}
 					prog = append(prog, "RClose")
@@ -1349,11 +1391,18 @@ func runC17(c *Ctx, _ []string) {
 				default:
 					prog = append(prog, "GetRead")
 				}
+				if panicked {
+					break
+				}
 				gr := rd.GetRead()
 				if gr < lastR {
 					fail("GetRead went from %d to %d", lastR, gr)
 				}
 				lastR = gr
+			}
+			if panicked {
+				report(len(data))
+				continue
 			}
 			if !isPrefix(got, data) {
 				fail("bytes read are not a prefix of the bytes written")
@@ -1363,18 +1412,15 @@ func runC17(c *Ctx, _ []string) {
 			}
 			if len(data) == 0 && !rclosed {
 				buf := make([]byte, 10)
-				if k2, err := rd.Read(buf); k2 != 0 || err != stdio.EOF {
+				var k2 int
+				var err error
+				guard("Read(10)", func() { k2, err = rd.Read(buf) })
+				if !panicked && (k2 != 0 || err != stdio.EOF) {
 					fail("a writer closed without data must decode to empty: Read returned (%d, %v)", k2, err)
 				}
 			}
 		}
-		c.Hist("empty_stream", fmt.Sprint(len(data) == 0))
-		if bad != "" {
-			c.Violation(map[string]any{"what": bad, "cfg": cfg.String(), "program": strings.Join(prog, " ; ")})
-		}
-		if len(c.Stats["samples"].([]any)) < 3 {
-			c.Stats["samples"] = append(c.Stats["samples"].([]any), strings.Join(prog, " ; "))
-		}
+		report(len(data))
 	}
 	c.Stats["distinct_nontrivial"] = nontrivial
 }
